@@ -464,4 +464,184 @@ func runSock(c *mon.Ctx) {
 		}
 		runSockCfg(c, sockCfg{Version: k.v, N: k.n, Senders: s, PerSender: n}, uint64(i))
 	}
+	// requests that outlive the read timeout: table full (N of N timed out) and partly full (1 of 2, 2 of 4)
+	for _, t := range [][2]int{{1, 1}, {2, 2}, {2, 1}, {4, 2}} {
+		runSockTimeout(c, primitive.ProtocolVersion4, t[0], t[1])
+	}
+	if c.Thorough() {
+		runSockTimeout(c, primitive.ProtocolVersion2, 3, 2)
+		runSockTimeout(c, primitive.ProtocolVersion4, 8, 8)
+	}
+}
+
+// ---------------------------------------------------------------------------------------------
+// Requests that outlive the read timeout (sockets, real time).
+//
+// A request whose caller gave up waiting (read timeout) is still UNANSWERED: the peer can reply at any moment, so its
+// id is assignable again only "once its final response has arrived". The peer holds its answers; the client's
+// requests run into a short ReadTimeout; then, judged by logical events only (results of Send, ids the raw peer sees):
+//   - with N requests unanswered a further managed send is still refused and a caller-chosen reuse of a timed-out id
+//     is refused;
+//   - with fewer than N unanswered a managed send may be accepted, but never with the id of a timed-out request;
+//   - after the peer finally answers everything, N new sends succeed.
+// Waiting for the timeout is bounded by a generous deadline; if the library has not reported the timeout by then
+// the box is stalled and the outcome is inconclusive.
+
+const (
+	sockReadTimeout = 250 * time.Millisecond
+	sockTimeoutWait = 20 * time.Second
+)
+
+func runSockTimeout(c *mon.Ctx, version primitive.ProtocolVersion, n int, outstanding int) {
+	v := vname(version)
+	cfg := sockCfg{Version: version, N: n, Senders: 1, PerSender: outstanding}
+	peer, err := newRawPeer(cfg, mon.NewRand(c.Seed, uint64(n)+(1<<51)))
+	if err != nil {
+		c.Inconclusive("sock: cannot listen on 127.0.0.1:0")
+		return
+	}
+	peer.serve()
+	defer peer.close()
+	cl := client.NewCqlClient(peer.ln.Addr().String(), nil)
+	cl.MaxInFlight = n
+	cl.MaxPending = 4
+	cl.ReadTimeout = sockReadTimeout
+	ctx, cancel := context.WithCancel(context.Background())
+	defer cancel()
+	conn, err := cl.ConnectAndInit(ctx, version, client.ManagedStreamId)
+	if err != nil {
+		if conn != nil {
+			conn.Close()
+		}
+		c.Inconclusive("sock/timeout: handshake with the raw peer failed (short read timeout on a slow box?)")
+		return
+	}
+	defer conn.Close()
+	detail := func(what string) sockDetail {
+		peer.mu.Lock()
+		defer peer.mu.Unlock()
+		return sockDetail{Part: "sock-timeout", Seed: c.Seed, Cfg: cfg, What: what, Tail: append([]string(nil), peer.tail...)}
+	}
+	key := func(k string) string { return fmt.Sprintf("sock/timeout/%s", k) }
+	waitPeer := func(want int) bool {
+		for t := time.Now(); time.Since(t) < sockTimeoutWait; time.Sleep(time.Millisecond) {
+			if peer.unansweredCount() == want {
+				return true
+			}
+		}
+		return false
+	}
+	if !waitPeer(0) {
+		c.Inconclusive("sock/timeout: peer did not drain the handshake")
+		return
+	}
+	peer.mu.Lock()
+	peer.holdAll = true
+	peer.mu.Unlock()
+
+	// `outstanding` managed requests that the peer will not answer for now
+	var reqs []client.InFlightRequest
+	timedOut := map[int16]bool{}
+	for k := 0; k < outstanding; k++ {
+		req, err := conn.Send(frame.NewFrame(version, client.ManagedStreamId, &message.Options{}))
+		if err != nil {
+			c.Inconclusive("sock/timeout: could not send the initial requests")
+			return
+		}
+		reqs = append(reqs, req)
+		timedOut[req.StreamId()] = true
+	}
+	if !waitPeer(outstanding) {
+		c.Inconclusive("sock/timeout: the initial requests did not reach the peer")
+		return
+	}
+	// the library reports the read timeout on each of them (logical event, not a sleep)
+	for _, r := range reqs {
+		deadline := time.Now().Add(sockTimeoutWait)
+		for r.Err() == nil {
+			if time.Now().After(deadline) {
+				c.Inconclusive("sock/timeout: the read timeout was not reported within the deadline (stalled box)")
+				return
+			}
+			time.Sleep(5 * time.Millisecond)
+		}
+	}
+	c.Eval(1)
+	c.Count("sock_timeout_requests_timed_out/"+v, int64(len(reqs)))
+	c.Distinct(fmt.Sprintf("sock-timeout|%s|%d|%d", v, n, outstanding))
+
+	// caller-chosen reuse of the id of a timed-out, still unanswered request: refused
+	a := reqs[0].StreamId()
+	if req, err := conn.Send(frame.NewFrame(version, a, &message.Options{})); err == nil {
+		reqs = append(reqs, req)
+		c.Violation(key("I4/timed-out-id-reused-by-caller"), detail(fmt.Sprintf(
+			"request with managed id %d ran into the read timeout and the peer has NOT answered it; a send with caller-chosen id %d was accepted", a, a)))
+	} else {
+		c.Count("sock_timeout_explicit_reuse_refused/"+v, 1)
+	}
+	// managed sends: at most N - outstanding more may be accepted, none with the id of a timed-out request
+	extra := 0
+	for k := 0; k < n-outstanding+2; k++ {
+		req, err := conn.Send(frame.NewFrame(version, client.ManagedStreamId, &message.Options{}))
+		if err != nil {
+			continue
+		}
+		reqs = append(reqs, req)
+		extra++
+		if timedOut[req.StreamId()] {
+			c.Violation(key("I2/id-of-timed-out-unanswered-request-reassigned"), detail(fmt.Sprintf(
+				"a managed send was given id %d, the id of a request that ran into the read timeout and that the peer has not answered", req.StreamId())))
+		}
+		if extra > n-outstanding {
+			c.Violation(key("I3/accepted-with-N-unanswered"), detail(fmt.Sprintf(
+				"a managed send was accepted (id %d) although %d requests are unanswered by the peer (N=%d; %d of them timed out on the client side)",
+				req.StreamId(), outstanding+extra-1, n, outstanding)))
+		}
+	}
+	if extra == n-outstanding {
+		c.Count("sock_timeout_refused_at_N/"+v, 1)
+	}
+	// the peer finally answers everything; then N new requests can be sent
+	peer.mu.Lock()
+	peer.holdAll = false
+	peer.mu.Unlock()
+	select {
+	case peer.wake <- struct{}{}:
+	default:
+	}
+	if !waitPeer(0) {
+		c.Inconclusive("sock/timeout: peer did not answer the held requests")
+		return
+	}
+	// the late answers have to be processed by the client before the ids are free: poll the refill, bounded
+	peer.mu.Lock()
+	peer.holdAll = true
+	peer.mu.Unlock()
+	var fresh []client.InFlightRequest
+	deadline := time.Now().Add(sockTimeoutWait)
+	for len(fresh) < n && time.Now().Before(deadline) {
+		req, err := conn.Send(frame.NewFrame(version, client.ManagedStreamId, &message.Options{}))
+		if err != nil {
+			time.Sleep(2 * time.Millisecond)
+			continue
+		}
+		fresh = append(fresh, req)
+	}
+	if len(fresh) < n {
+		c.Violation(key("I5/refill-refused-after-late-answers"), detail(fmt.Sprintf(
+			"after the peer answered every request only %d of N=%d new managed sends were accepted within %v", len(fresh), n, sockTimeoutWait)))
+	} else {
+		c.Count("sock_timeout_refill_ok/"+v, 1)
+	}
+	peer.mu.Lock()
+	peer.holdAll = false
+	findings := append([]finding(nil), peer.findings...)
+	peer.mu.Unlock()
+	select {
+	case peer.wake <- struct{}{}:
+	default:
+	}
+	for _, f := range findings {
+		c.Violation(f.Key, detail(f.What))
+	}
 }
